@@ -30,6 +30,9 @@ class AsyncFakeSocket(_fakesocket.FakeSocket):
                             break
         except asyncio.TimeoutError:
             result = None
+        except _helpers.SimpleError as exc:
+            # An error raised by the re-check is the reply, as in the synchronous version
+            result = self._decode_result(exc)
         finally:
             with self._server.lock:
                 self._db.remove_change_callback(callback)
